@@ -29,7 +29,7 @@ var skipInit = map[string]bool{
 	"unicode": false, "os": false, "syscall": true, "runtime": true, "net": true, "os/signal": true,
 	"internal/poll": true, "internal/godebug": true, "crypto/internal/boring": true, "log": false,
 	"github.com/tendermint/tendermint/internal/verifvp": true,
-	"reflect": true, "internal/reflectlite": true, "crypto/rand": true, "math/rand": true,
+	"reflect": true, "internal/reflectlite": true, "crypto/rand": true,
 	"internal/cpu": true, "golang.org/x/sys/cpu": true, "golang.org/x/sys/unix": true,
 	"encoding/json": true, "github.com/gogo/protobuf/proto": true, "github.com/golang/protobuf/proto": true,
 	"google.golang.org/protobuf/internal/impl": true, "google.golang.org/protobuf/reflect/protoregistry": true,
@@ -724,11 +724,10 @@ func init() {
 	reg("(*crypto/sha512.digest).BlockSize", func(m *Machine, fr *frame, a []Value) Value { return int64(128) })
 	reg("hash/crc32.Checksum", func(m *Machine, fr *frame, a []Value) Value {
 		data := a[0].(Slice)
-		if b, ok := concBytes(data); ok {
-			// table identity: only Castagnoli and IEEE are used in this code base
-			return int64(crc32.Checksum(b, m.crcTable(a[1])))
+		out := m.hash("crc32:"+m.crcPolyName(a[1]), data, 4)
+		if b, ok := concBytes(Slice(out)); ok {
+			return int64(uint32(b[0])<<24 | uint32(b[1])<<16 | uint32(b[2])<<8 | uint32(b[3]))
 		}
-		out := m.hash("crc32:"+m.crcTableName(a[1]), data, 4)
 		p := m.pool
 		t := p.Concat(p.Concat(m.toTerm(out[0], 8), m.toTerm(out[1], 8)), p.Concat(m.toTerm(out[2], 8), m.toTerm(out[3], 8)))
 		return simp(t, false)
